@@ -811,6 +811,8 @@ class Interp(object):
                                       % (_src(s), bad, sorted(tv.dtprov) or "a fresh array"), self.fkey(fr), s))
 
     def truth(self, v, node, fr):
+        if isinstance(v, Scal) and v.sym and v.sym.startswith("kw:") and v.const is None:
+            self.finding("numtruth", node, "the numeric parameter `%s` is tested for truthiness (`%s`): an explicit 0 is treated as if the argument had not been given" % (v.sym[3:], _src(node)), fr)
         if isinstance(v, Arr):
             self.res.truths.append((getattr(node, "lineno", 0), node, self.fkey(fr)))
             self.finding("truth", node, "array used in a boolean context (ambiguous truth value, A19): %s" % _src(node), fr)
@@ -1570,7 +1572,8 @@ class ArrayInterp(Interp):
         dt = F_ if meth in ("mean", "std", "var", "median") else (I_ if meth == "count" else base.dt)
         if base.shape in ("stacked", "rankdep"):
             self.finding("equivariance", node, "reduction over layers and cells together: %s" % _src(node), fr)
-        return Scal(D=base.D, Pg=pg, dt=dt, masked_const_possible=base.kind == "masked")
+        scope = "all" if base.shape == "same" and not base.sel else "subset"
+        return Scal(D=base.D, Pg=pg, dt=dt, masked_const_possible=base.kind == "masked", sym="stat:%s(%s)" % (meth, scope) if base.D else None)
 
     def call_arr_method(self, info, e, fr):
         base, meth, basenode = info
@@ -1701,6 +1704,31 @@ class ArrayInterp(Interp):
                 D, Pg = A[1].D, A[1].Pg
             masked = ".ma." in qn
             return Arr(kind="masked" if masked else "plain", alias=S(), shape=shp, dt=dt, D=D, Pg=Pg, constmask=masked)
+        if qn in ("numpy.ma.masked_values", "numpy.ma.masked_equal", "numpy.ma.masked_where", "numpy.ma.masked_object", "numpy.ma.masked_invalid",
+                  "numpy.ma.masked_less", "numpy.ma.masked_greater", "numpy.ma.masked_less_equal", "numpy.ma.masked_greater_equal", "numpy.ma.masked_not_equal",
+                  "numpy.ma.masked_inside", "numpy.ma.masked_outside"):
+            name = qn.split(".")[-1]
+            if name == "masked_where":
+                cond, x = (A + [None, None])[:2]
+                val = None
+            else:
+                x = a0
+                cond = None
+                val = A[1] if len(A) > 1 else K.get("value")
+            if not isinstance(x, Arr):
+                return Arr(kind="masked", alias=S(), shape="unknown", dt=IF_)
+            op = {"masked_values": "Close", "masked_equal": "Eq", "masked_object": "Eq", "masked_less": "Lt", "masked_greater": "Gt", "masked_less_equal": "LtE",
+                  "masked_greater_equal": "GtE", "masked_not_equal": "NotEq", "masked_invalid": "Invalid", "masked_inside": "Inside", "masked_outside": "Outside"}.get(name)
+            if cond is not None and isinstance(cond, Arr):
+                m = replace(cond, isbool=True)
+            else:
+                m = Arr(kind="plain", isbool=True, alias=S(), M=E, shape=x.shape, dt=B_, cmp=(x.alias | x.dataof, op, scal_id(val)))
+            cp = K.get("copy")
+            fresh = not (isinstance(cp, Other) and cp.info is False)
+            out = replace(x, kind="masked", alias=S() if fresh else x.alias | S(), M=(x.M if x.kind == "masked" else E) | (m.M if isinstance(m, Arr) else E), maskof=E, dataof=E,
+                          rng=(None, None), constmask=False, Pc=x.Pc | (m.Pc if isinstance(m, Arr) else E))
+            self.res.maskstores.append((e.lineno, out, m, e, self.fkey(fr)))
+            return out
         if qn in ("numpy.ma.getmaskarray", "numpy.ma.getmask"):
             if isinstance(a0, Arr):
                 return Arr(kind="plain", isbool=True, alias=S() if qn.endswith("getmaskarray") else a0.alias, M=a0.M, shape=a0.shape, dt=B_, maskof=a0.alias, constmask=a0.constmask)
